@@ -106,10 +106,17 @@ def attributes (u : UModel) (e : Url) (n : String) : Bool :=
 /-- Every listed model is in the catalogue, attributed to its endpoint: some entry has the endpoint as a
     source and carries the name as id, alias or that source's native name — or does so for another name the
     same endpoint lists with the same digest (one binary under two names is one catalogue entry). -/
-def catalogueComplete (us : List Url) (r : Ref) (cat : List UModel) : Bool :=
+def catalogueComplete (us : List Url) (r : Ref) (cat : List UModel) (seen : List Model := []) : Bool :=
   us.all (fun e => (listed r e).all (fun m =>
     cat.any (fun u => attributes u e m.name ||
-      (m.digest != "" && (listed r e).any (fun m' => m'.digest == m.digest && attributes u e m'.name)))))
+      (m.digest != "" && (listed r e).any (fun m' => m'.digest == m.digest && attributes u e m'.name)) ||
+      -- …or the binary (digest) is the one this entry stands for on some endpoint, and the entry has `e` as a
+      -- source: one binary is one entry, and an entry records a single native name per endpoint
+      (m.digest != "" && u.sources.any (fun s => s.url == e) &&
+        (us.any (fun e' => (listed r e').any (fun m' => m'.digest == m.digest && attributes u e' m'.name)) ||
+         -- (aliases are knowledge about a binary and outlive the listing they came from: `seen` = every listing accepted so far)
+         seen.any (fun m' => m'.digest == m.digest &&
+           (lowerS u.id == lowerS m'.name || u.aliases.any (fun a => lowerS a == lowerS m'.name))))))))
 
 /-- endpoints that literally list name `n` -/
 def listersExact (us : List Url) (r : Ref) (n : String) : List Url :=
